@@ -207,7 +207,7 @@ def run(ctx: core.Ctx) -> int:
                       "scheds": rnd.sample(scheds, min(len(scheds), 3 if q else 8)),
                       "real_workers": [1, 2, 16] if q else [1, 2, 3, 4, 8, 16],
                       "hash_seeds": ([0, 1, 2, 3] if i % 4 == 0 else []) if q else [0, 1, 2, 3, 4, 5]})
-    events = core.pmap(run_case, cases, chunksize=1, daemon=False)
+    events = ctx.pmap(run_case, cases, chunksize=1, daemon=False)
     n_runs = sum(len(e["runs"]) for e in events)
     for ev in events[:2]:
         ctx.samples.append({"tree": ev["label"], "settings": [r["cfg"] for r in ev["runs"]],
@@ -231,4 +231,4 @@ def run(ctx: core.Ctx) -> int:
 
 
 def replay(ctx: core.Ctx, path: str) -> int:
-    raise core.MachineryError("replay for C14 re-runs the case list; use the check with the same VERIF_SEED")
+    return core.generic_replay(ctx, path)
